@@ -517,6 +517,11 @@ def ring3(ctx, b):
             if k % 3 == 2:
                 # destroyed without ever being iterated or written, chunk jobs possibly still in flight: must return as well
                 L += ["s_destroy 0", "pool_destroy 0", "---"]
+            elif k % 3 == 1:
+                # written into a writer right after the last add (chunk jobs possibly still in flight), then read back
+                outp = os.path.join(tmp, "out.mtbl")
+                L += ["w_init 5 %s none default 1024 2 -1 0" % outp, "s_write 0 5", "w_close 5", "r_init 5 %s 1 0" % outp, "it_iter 2 r:5", "it_drain 2", "it_destroy 2", "r_destroy 5",
+                      "s_destroy 0", "pool_destroy 0", "---"]
             else:
                 L += ["s_iter 0 1", "it_drain 1", "it_destroy 1", "s_destroy 0", "pool_destroy 0", "---"]
             lines += L
